@@ -173,4 +173,41 @@ def run(ctx):
         ctx.tally('history_len', len(history)); ctx.tally('switches', nswitch)
         if h < 2: ctx.sample({'history': history})
         objs.clear(); gc.collect()
+    # ---------------- directed histories: the FIRST use of an old model after a switch is a (jitted, where the backend jits) fit;
+    # every later eager evaluation and every further fit must still behave like a fresh model's
+    targets = [('jax', '64b')] + ([('pytorch', '64b'), ('tensorflow', '64b'), ('numpy', '32b')] if ctx.thorough else [[('pytorch', '64b'), ('numpy', '32b')][ctx.seed % 2]])
+    for (tb, tp) in targets:
+        for ncode, hcode in ([('code1', 'code0'), ('code4', 'code4p')] if (tb == 'jax' or ctx.thorough) else [('code4', 'code4p')]):
+            pyhf.set_backend('numpy', 'scipy', precision='64b')
+            spec, _ = gen_spec.gen_spec(rng, max_channels=2, max_samples=2, max_bins=2, want={'normsys', 'histosys'})
+            mk = lambda: pyhf.Model(spec, poi_name='mu', modifier_settings={'normsys': {'interpcode': ncode}, 'histosys': {'interpcode': hcode}})
+            old_model = mk()
+            history = [['create', 'model', ncode, hcode], ['set_backend', tb, tp, 'scipy'], ['fit', 0]]
+            pyhf.set_backend(tb, 'scipy', precision=tp)
+            tl = pyhf.tensorlib
+            tol = 1e-6 if tp == '64b' else 5e-2
+            try:
+                init = np.asarray(old_model.config.suggested_init(), dtype=np.float64)
+                d = list(np.asarray(tl.tolist(mk().expected_data(tl.astensor(init))), dtype=float))
+                _, f1 = pyhf.infer.mle.fit(d, old_model, return_fitted_val=True)              # first use after the switch
+                _, f2 = pyhf.infer.mle.fit(d, mk(), return_fitted_val=True)
+                f1 = float(np.asarray(tl.tolist(f1))); f2 = float(np.asarray(tl.tolist(f2))); ctx.count()
+                if abs(f1 - f2) > tol * (1 + abs(f2)):
+                    ctx.fail('C11/fit-vs-fresh', 'fit objective on an old model differs from a fresh model', {'history': history, 'spec': spec}, f1, f2)
+                entry = ['model', old_model, 0, spec]
+                # eval_object builds its fresh model with default settings: compare with the same settings here
+                p = tl.astensor(init); dd = tl.astensor(np.asarray(d, dtype=np.float64))
+                for nm, fn in (('expected_data', lambda mm: mm.expected_data(p)), ('logpdf', lambda mm: mm.logpdf(p, dd))):
+                    got = np.asarray(tl.tolist(fn(old_model)), dtype=float); fresh = np.asarray(tl.tolist(fn(mk())), dtype=float); ctx.count()
+                    if not np.array_equal(got, fresh):
+                        ctx.fail('C11/eval-vs-fresh', 'an object created earlier does not evaluate like a fresh one under the current backend', {'history': history + [['eval', nm]], 'spec': spec}, got.tolist(), fresh.tolist())
+                _, g1 = pyhf.infer.mle.fixed_poi_fit(1.0, d, old_model, return_fitted_val=True)
+                _, g2 = pyhf.infer.mle.fixed_poi_fit(1.0, d, mk(), return_fitted_val=True)
+                g1 = float(np.asarray(tl.tolist(g1))); g2 = float(np.asarray(tl.tolist(g2))); ctx.count()
+                if abs(g1 - g2) > tol * (1 + abs(g2)):
+                    ctx.fail('C11/fit-vs-fresh', 'fixed-POI fit objective on an old model differs from a fresh model', {'history': history + [['eval'], ['fixed_poi_fit', 0]], 'spec': spec}, g1, g2)
+            except Exception as e:  # noqa
+                ctx.fail('C11/eval-exception', f'use of an old model after switch-then-fit raised {type(e).__name__}', {'history': history, 'spec': spec}, str(e)[:200])
+            ctx.tally('directed_fit_first', f'{tb}/{tp}/{ncode}')
+            del old_model; gc.collect()
     pyhf.set_backend('numpy', 'scipy', precision='64b')
